@@ -28,12 +28,13 @@ _Bool  g_reloc;       /* the watched element's bytes were relocated by memcpy/re
 size_t g_reloc_obj, g_reloc_idx, g_reloc_count;
 _Bool  g_freed_w;     /* the watched buffer was freed */
 size_t g_newobj;      /* object id of the most recent allocation */
-size_t g_allocs, g_frees;
+size_t g_allocs, g_frees, g_reallocs;
+_Bool  g_watch_new;   /* harness choice: the watched buffer is the first allocation made during the call */
 
 #define IS_WATCH(e) (__CPROVER_POINTER_OBJECT(e) == g_wobj && \
                      __CPROVER_POINTER_OFFSET(e) == (ssize_t)(g_wp * sizeof(struct Elem)))
 #define GHOST_ELEM g_dtor_calls, g_ctor_calls, g_asgn_calls, g_reloc, g_reloc_obj, g_reloc_idx, \
-                   g_reloc_count, g_freed_w, g_newobj, g_allocs, g_frees, g_wobj
+                   g_reloc_count, g_freed_w, g_newobj, g_allocs, g_frees, g_reallocs, g_wobj
 
 static void Elem__ctor_default(struct Elem *self) {
   if (IS_WATCH(self)) { __CPROVER_assert(self->life != LIVE, "C09 constructor runs on storage that still holds an element"); g_ctor_calls++; }
@@ -73,6 +74,7 @@ static void *verif_malloc(size_t n) {
   __CPROVER_assume(p != 0);
   g_newobj = __CPROVER_POINTER_OBJECT(p);
   g_allocs++;
+  if (g_watch_new && g_allocs == 1) g_wobj = g_newobj;
   if (g_np < n / sizeof(struct Elem)) __CPROVER_assume(((struct Elem *)p)[g_np].life == RAW);
   return p;
 }
